@@ -655,7 +655,7 @@ impl Gen {
                 1 => { let v = le(&f, s.off, 4); put(&mut sx, s.off, 4, if v == 0 { self.rng.below(5) } else { 1 + self.rng.below(40) }); }
                 2 => { put(&mut sx, s.off, 8, self.rng.next()); }
                 3 => { for i in 0..32 { sx[s.off + i] = self.rng.next() as u8; } }
-                5 => { let t = self.rng.pick(&[0u64, 1, 2, 3, 4, 5, 6]);
+                5 => { let t = self.rng.pick(&[0u64, 1, 2, 3, 4, 5]);      // never NONE: the honest stream's dist differs from a fresh receiver's
                        let pay = match t { 0 | 2 | 4 => self.rng.below(1 << 20), 1 | 3 => (0.37f64 + self.rng.below(100) as f64).to_bits() >> 8, _ => 0 };
                        put(&mut sx, s.off, 8, (t << 56) | pay); }
                 12 => { for i in 0..s.w { sx[s.off + i] = self.rng.next() as u8; } }
